@@ -5,7 +5,7 @@ HEAD = subprocess.check_output(['git', '-C', '/repo', 'log', '--format=%h', '-1'
 DETECT = {
  'C01-1': 'C01: lastblock/boundary (quick) / lastblock/post (thorough) kind=SHA,p=56|120,r=7 clause bytes; __call__/bounded n=56,r=7',
  'C01-2': 'C01: __call__/rejects-long-bitlen (bitlen = 8|M|+1..7 accepted)',
- 'C02-1': 'C10: history/enumeration/kind=AES-created-after-siblings (C02 itself reports UNDECIDED: symbolic dict key)',
+ 'C02-1': 'C02: block-ciphers/keys-of-equal-integer-value/cipher=AES (check strengthened for this seed: several cipher objects with keys that differ only in length in one process; the symbolic key-schedule obligations report UNDECIDED - dict store with a symbolic key); also C10 history/enumeration/kind=AES-created-after-siblings',
  'C02-2': 'C02: crysp.serpent.Serpent.__init__/post/n=31',
  'C03-1': 'C03: crysp.utils.operators.rol-ror/inverse/m=<non power of two> clause ror0/exact (also C08 rol-ror)',
  'C03-2': 'C03: crysp.des.TDEA/roundtrip/form=1x24|k1,k2,k3 clause identity (also C02 TDEA/post dir=dec)',
